@@ -191,11 +191,11 @@ class HistWorld(World):
     def _live_extra(self):
         sim = self.sim
         if self.type == "InElastic":
-            z = getattr(sim, "_InElastic__zOld")
+            z = simlib.priv(sim, "_InElastic__zOld")
             # a group whose state was never touched is the virgin (all-zero) state, whether or not its array exists yet
             return {str(k): np.array(v) for k, v in z.items() if np.any(np.array(v))}
         if self.type == "PhaseField" and self.params["solver"] == "History" and not self.ctx.avoids("pf-history-not-restored"):
-            return {"H": np.array(getattr(sim, "_PhaseField__old_psiP_e_pg"))}
+            return {"H": np.array(simlib.priv(sim, "_PhaseField__old_psiP_e_pg"))}
         return {}
 
     def _live_digest_nodisk(self):
